@@ -276,3 +276,25 @@ fn c15_material_paths_all() {
     kani::cover!(true);
     core::mem::forget(p);
 }
+
+/// the same reading for every slot on fully concrete file names (decided by constant propagation whatever string
+/// searching the implementation uses; the symbolic variants above need fixed read positions to decide)
+#[kani::proof]
+#[kani::unwind(24)]
+#[kani::stub(core::slice::memchr::memrchr, crate::verif_support::refs::naive_memrchr)]
+#[kani::stub(core::slice::memchr::memchr_aligned, crate::verif_support::refs::naive_memchr)]
+fn c15_deconstruct_concrete_all_slots() {
+    let mut i = 0u8;
+    while i < 10 {
+        let ab = get_slot_abbreviation(slot_from_index(i)).as_bytes();
+        let raw: [u8; 18] = [b'c', b'0', b'2', b'0', b'1', b'e', b'0', b'0', b'3', b'8', b'_', ab[0], ab[1], ab[2], b'.', b'm', b'd', b'l'];
+        let path = unsafe { core::str::from_utf8_unchecked(&raw) };
+        match deconstruct_equipment_path(path) {
+            Some((id, slot)) => { assert_eq!(id, 38); assert!(slot == slot_from_index(i)); }
+            None => panic!("valid file name not deconstructed"),
+        }
+        i += 1;
+    }
+    let x: u8 = kani::any();
+    kani::cover!(x == 1);
+}
